@@ -21,8 +21,18 @@ def pick_kind(r, weights):
     return "g"
 
 
+# session_timeout values on integer-width boundaries of "seconds * 1000": 2^31 ms, 2^32 ms,
+# UINT_MAX seconds
+WIDE_TIMEOUTS = [2147483, 2147484, 4294967, 4294968, 4294969, 8589935, 4294967295]
+
+
 def boundary_advances(timeout_s):
     t = (timeout_s if timeout_s > 0 else 300) * 1000
+    if t >= 1 << 31:
+        # what a truncated product would be, and the true boundary
+        w32, w31 = t % (1 << 32), t % (1 << 31)
+        return [t - 1, t, t + 1, 1, 999, 1000, 2000, 3000, 100000, max(1, w32 - 1), w32, w32 + 1,
+                w31, w31 + 1, (1 << 32) - 1, 1 << 32, (1 << 31), 2 * t, t // 2]
     # session timeout boundary, retransmission schedule (2..3 s, doubling, 5 transmissions),
     # async delay 2 s, observe/ack odds and ends
     return [t - 1, t, t + 1, 1, 999, 1000, 1999, 2000, 2001, 3000, 6000, 12000, 24000, 48000,
@@ -35,7 +45,11 @@ def gen_history(r, stale_etag=False, max_peers=None):
     if max_peers:
         npeers = min(npeers, max_peers)
     timeout = r.choice([0, 1, 1, 2, 3, 5, 30, 300])
+    if r.random() < 0.08:
+        timeout = r.choice(WIDE_TIMEOUTS)
     maxidle = r.choice([0, 0, 1, 2, 3, max(1, npeers - 1), npeers, npeers + 1])
+    if r.random() < 0.03:
+        maxidle = r.choice([2147483647, 2147483648, 4294967295])
     nops = r.choice([6, 12, 20, 30, 45, 70]) if npeers < 20 else r.choice([60, 90, 140])
     weights = dict(RX_WEIGHTS)
     if stale_etag:
@@ -116,6 +130,12 @@ def boundary_cases():
         out.append("se 13 %d 0 rx:0:h adv:%d prep rel:0 prep adv:%d prep" % (t, 2 * T, T))
         out.append("se 14 %d 0 rx:0:o rx:1:O adv:%d prep notify:0 notify:1 prep adv:%d prep rx:0:d rst:1 adv:%d prep"
                    % (t, T, T, T))
+    # integer widths: seconds * 1000 must not be cut to 32 (or 31) bits
+    for t in WIDE_TIMEOUTS:
+        w = (t * 1000) % (1 << 32)
+        out.append("se 26 %d 0 rx:0:g rx:1:c adv:%d prep rx:0:g adv:1000 prep adv:%d prep rx:1:g adv:%d prep adv:1 prep"
+                   % (t, w + 1, 1 << 31, t * 1000 - 1))
+    out.append("se 27 300 4294967295 rx:0:g rx:1:g rx:2:g adv:1 rx:3:g")
     # idle limit: num_idle >= max_idle evicts the oldest before the new session is made
     for m in (1, 2, 3):
         ops = " ".join("rx:%d:g adv:1" % p for p in range(m + 2))
@@ -196,9 +216,13 @@ def gen_stream_history(r):
     """CoAP over TCP server sessions: 'st <seed> <session_timeout_s> <op>*'"""
     nconn = r.choice([1, 1, 2, 3, 4, 6])
     timeout = r.choice([1, 2, 5, 300, 300])
+    if r.random() < 0.06:
+        timeout = r.choice(WIDE_TIMEOUTS)
     nops = r.choice([5, 9, 14, 22, 36])
     T = timeout * 1000
     advs = [1, 999, 1000, 1999, 2000, 2001, 3000, T - 1, T, T + 1]
+    if T >= 1 << 31:
+        advs += [T % (1 << 32), T % (1 << 32) + 1, 1 << 31, 1 << 32]
     ops = []
     opened = set()
     while len(ops) < nops:
@@ -207,8 +231,19 @@ def gen_stream_history(r):
         if i not in opened:
             ops += ["conn:%d" % i] + (["csm:%d" % i] if r.random() < 0.9 else [])
             opened.add(i)
-        elif x < 0.30:
+        elif x < 0.24:
             ops.append("get:%d:%s" % (i, r.choice("rrhhaa")))
+        elif x < 0.33:
+            # a message cut inside the header (1, 2), at its end (3), inside the token (4..10),
+            # inside options / body (11..33)
+            ops.append("part:%d:%d" % (i, r.choice([1, 2, 3, 4, 7, 10, 11, 12, 14, 20, 33])))
+            y = r.random()
+            if y < 0.45:
+                ops.append("close:%d" % i)
+                if r.random() < 0.7:
+                    ops.append("prep")
+            elif y < 0.8:
+                ops.append("rest:%d" % i)
         elif x < 0.45:
             ops.append("close:%d" % i)
             if r.random() < 0.6:
@@ -248,4 +283,8 @@ def stream_boundary_cases():
         # closed before the CSM; idle timeout of an open connection
         "st 45 1 conn:0 close:0 prep conn:1 csm:1 get:1:r adv:999 prep adv:1 prep",
         "st 46 300 conn:0 csm:0 get:0:h get:0:h close:0 prep rel:0 prep rel:0 prep",
+        # the peer goes away in the middle of a message: header / token / body cut
+        "st 47 300 conn:0 csm:0 part:0:2 close:0 prep conn:1 csm:1 part:1:7 close:1 prep conn:2 csm:2 part:2:20 close:2 prep",
+        "st 48 300 conn:0 csm:0 get:0:h part:0:12 close:0 prep rel:0 prep conn:1 csm:1 part:1:14 rest:1 part:1:3 free",
+        "st 49 4294968 conn:0 csm:0 get:0:r adv:705 prep adv:1000 prep get:0:r adv:4294967999 prep adv:1 prep",
     ]
